@@ -136,10 +136,14 @@ let jqval = function
   | Ret (VBool b) -> "{\"bool\":" ^ (if b then "true" else "false") ^ "}"
   | Ret (VNat n) -> "{\"nat\":" ^ jnat n ^ "}"
   | Raise e -> jstr (exn_name e)
+(* (noop): something is done to ANOTHER object (a copy / reindexed copy of this one), or this object is replaced by its copy, or an
+   attribute is read: for the model nothing happens to the state *)
+let op_of_opt = function L [A "noop"] -> None | x -> Some (op_of x)
 let run_ops stepf readf s0 ops =
   let rec go s = function
     | [] -> []
-    | o :: r ->
+    | None :: r -> ("{\"out\":\"ok\",\"st\":" ^ jstate s ^ "}") :: go s r
+    | Some o :: r ->
         let (s', out) = stepf o s in
         let ret = match o with Query q -> ",\"ret\":" ^ jqval (snd (readf q s)) | _ -> "" in
         ("{\"out\":" ^ jout out ^ ret ^ ",\"st\":" ^ jstate s' ^ "}") :: go s' r
@@ -154,14 +158,14 @@ let handle line =
   match parse (tokenize line) with
   | L [A "vc"; sp; st; ops] ->
       let s0 = init_vc (List.map z_of_sx (list_of sp)) (int_of_sx st <> 0) in
-      "{\"init\":\"ok\",\"st0\":" ^ jstate s0 ^ ",\"steps\":[" ^ String.concat "," (run_ops np_step read s0 (List.map op_of (list_of ops))) ^ "]}"
+      "{\"init\":\"ok\",\"st0\":" ^ jstate s0 ^ ",\"steps\":[" ^ String.concat "," (run_ops np_step read s0 (List.map op_of_opt (list_of ops))) ^ "]}"
   | L [A (("model" | "linker") as k); extra; sp; st; d; dflt; nms; ivs; ops] ->
       let dr = match dreq_of d with Some x -> x | None -> failwith "dreq" in
       let (s0, out) = np_init_model (kind_of k (int_of_sx extra)) (List.map z_of_sx (list_of sp)) (int_of_sx st <> 0) dr
           (operand_of dflt) (names_of nms) (ivs_of ivs) in
       (match out with
        | Raise _ -> "{\"init\":" ^ jout out ^ ",\"steps\":[]}"
-       | Ret _ -> "{\"init\":\"ok\",\"st0\":" ^ jstate s0 ^ ",\"steps\":[" ^ String.concat "," (run_ops np_step read s0 (List.map op_of (list_of ops))) ^ "]}")
+       | Ret _ -> "{\"init\":\"ok\",\"st0\":" ^ jstate s0 ^ ",\"steps\":[" ^ String.concat "," (run_ops np_step read s0 (List.map op_of_opt (list_of ops))) ^ "]}")
   | L [A "alias"; A k; extra; al; pref; sp; st; d; dflt; nms; ivs; ops; reads] ->
       (* AliasMixin over a model / linker: constructor, ops through aliases, renamed export *)
       let dr = match dreq_of d with Some x -> x | None -> failwith "dreq" in
@@ -174,9 +178,9 @@ let handle line =
            (match out with
             | Raise _ -> "{\"init\":" ^ jout out ^ "," ^ amj ^ ",\"steps\":[]}"
             | Ret _ ->
-                let opl = List.map op_of (list_of ops) in
+                let opl = List.map op_of_opt (list_of ops) in
                 let steps = run_ops (alias_step am) (alias_read am) s0 opl in
-                let sfin = List.fold_left (fun s o -> fst (alias_step am o s)) s0 opl in
+                let sfin = List.fold_left (fun s o -> match o with None -> s | Some o -> fst (alias_step am o s)) s0 opl in
                 let ren = match export am sfin with
                   | Ret l -> jlist (fun (t, src) -> "[" ^ jname t ^ "," ^ jname src ^ "]") l | Raise e -> jstr (exn_name e) in
                 let jres = function Ret cells -> "{\"ok\":" ^ jlist jcell cells ^ "}" | Raise e -> jstr (exn_name e) in
